@@ -577,12 +577,36 @@ def _replay_dataflow(spec, r):
     gm = inertial_sensor.EstimationModel(bias_sd=1e-5, noise=1e-6, scale_misal_sd=1e-3)
     am = inertial_sensor.EstimationModel(bias_sd=1e-2, noise=1e-3, scale_misal_sd=1e-3)
     rec = []
+    events = []
+    mrec = []
     orig = filters._compute_error_propagation_matrices
+    from pyins import kalman as kalman_mod, error_model as em_mod
+    orig_correct = kalman_mod.correct
 
     def wrap(pva, gyro, accel, time_delta, *a):
         rec.append((pva.copy(), None if gyro is None else np.array(gyro, dtype=float), None if accel is None else np.array(accel, dtype=float), float(time_delta)))
-        return orig(pva, gyro, accel, time_delta, *a)
+        out = orig(pva, gyro, accel, time_delta, *a)
+        events.append(('prop', np.array(out[0], dtype=float), np.array(out[1], dtype=float)))
+        return out
+
+    def wrap_correct(x, P, z, H, R):
+        xi, Pi = np.array(x, dtype=float), np.array(P, dtype=float)
+        out = orig_correct(x, P, z, H, R)
+        events.append(('corr', xi, Pi, np.array(z, dtype=float), np.array(H, dtype=float), np.array(R, dtype=float), np.array(out[0], dtype=float), np.array(out[1], dtype=float)))
+        return out
+    for ms in meas:
+        def mk(ms_):
+            real = ms_.compute_matrices
+
+            def cm(time, pva, *a, **k):
+                ret = real(time, pva, *a, **k)
+                if ret is not None:
+                    mrec.append((float(time), pva.copy(), [np.array(t_, dtype=float) for t_ in ret]))
+                return ret
+            return cm
+        ms.compute_matrices = mk(ms)
     filters._compute_error_propagation_matrices = wrap
+    kalman_mod.correct = wrap_correct
     failed = []
     try:
         kw = {} if spec.get('default_step') else {'time_step': spec['step']}
@@ -593,6 +617,7 @@ def _replay_dataflow(spec, r):
         res = None
     finally:
         filters._compute_error_propagation_matrices = orig
+        kalman_mod.correct = orig_correct
     if res is not None:
         ri = list(res.trajectory.index)
         pos = [int(np.nonzero(stamps == t)[0][0]) for t in ri]
@@ -610,6 +635,43 @@ def _replay_dataflow(spec, r):
             want = 0.5 * (nominal.iloc[pos[k]][['lat', 'lon', 'alt', 'VN', 'VE', 'VD']].values + nominal.iloc[pos[k + 1]][['lat', 'lon', 'alt', 'VN', 'VE', 'VD']].values)
             if not np.allclose(pva[['lat', 'lon', 'alt', 'VN', 'VE', 'VD']].values.astype(float), want, rtol=1e-12, atol=1e-12):
                 failed.append('step %d: error dynamics not evaluated at the nominal trajectory averaged over the step' % k)
+        # the estimate chain: every correction starts from the state and covariance left by the
+        # previous event, every propagation is x -> Phi x, P -> Phi P Phi^T + Qd with the matrices
+        # the loop itself computed; the first correction / propagation starts from x = 0
+        n_err = em_mod.InsErrorModel(wa).n_states
+        x = P = None
+        close = lambda u, v: np.allclose(u, v, rtol=1e-10, atol=1e-14 * max(1.0, float(np.abs(v).max()) if np.size(v) else 1.0))
+        mi = 0
+        for ev in events:
+            if ev[0] == 'prop':
+                if x is None:
+                    x = np.zeros(len(ev[1]))
+                if P is not None:
+                    P = ev[1] @ P @ ev[1].T + ev[2]
+                x = ev[1] @ x
+            else:
+                _t, xi, Pi, z, H, R, xo, Po = ev
+                if x is None:
+                    x = np.zeros(len(xi))
+                if not close(xi, x):
+                    failed.append('a correction does not start from the error state left by the previous step (x chain broken): max diff %.3g' % np.abs(xi - x).max())
+                if P is not None and not close(Pi, P):
+                    failed.append('a correction does not start from the covariance left by the previous step (P chain broken)')
+                if mi < len(mrec):
+                    tm, mp, (zr, Hr, Rr) = mrec[mi]
+                    mi += 1
+                    if H.shape[1] < n_err or not close(H[:, :n_err], Hr) or np.abs(H[:, n_err:]).max(initial=0.0) != 0:
+                        failed.append('measurement matrix is not placed in the block of the navigation error states (zero elsewhere)')
+                    if not close(z, zr) or not close(R, Rr):
+                        failed.append('correction does not use the residual / noise covariance of the measurement model')
+                    kk = int(np.searchsorted(stamps, tm, side='right') - 1)
+                    kk = min(max(kk, 0), n - 2)
+                    al = (tm - stamps[kk]) / (stamps[kk + 1] - stamps[kk])
+                    cols = ['lat', 'lon', 'alt', 'VN', 'VE', 'VD']
+                    want = (1 - al) * computed.iloc[kk][cols].values + al * computed.iloc[kk + 1][cols].values
+                    if not np.allclose(mp[cols].values.astype(float), want, rtol=1e-11, atol=1e-11):
+                        failed.append('measurement at %.6g is not evaluated on the computed trajectory interpolated to its time' % tm)
+                x, P = xo, Po
     r['failed'] = list(r.get('failed') or []) + failed[:4]
     r['violated'] = bool(r['failed'])
     return r
